@@ -177,7 +177,8 @@ class C14(Prop):
         if tier == "quick":
             return [{"module": "MC_Normalize", "cfg": "Normalize_quick.cfg"}]
         return [{"module": "MC_Normalize", "cfg": "Normalize_thorough.cfg", "export": False},
-                {"module": "MC_Normalize", "cfg": "Normalize_thorough_gen.cfg"}]
+                {"module": "MC_Normalize", "cfg": "Normalize_thorough_gen.cfg"},
+                {"module": "MC_Normalize", "cfg": "Normalize_sim.cfg", "simulate": "num=300", "depth": 9, "export": False, "timeout": 900}]
 
     def nontrivial(self, rec):
         def deep(a):
